@@ -1276,3 +1276,67 @@ def check_initial_wiring(prog, report):
                  'j*len(space)+i is (t_j, x_i)',
                  construct='Mesh.__init__: vertex grid')
     report.floor('R-wiring', 8)
+
+
+def check_element_geometry(prog, report):
+    """Element.__init__: intervals and sizes from the corner vertices, the
+    orientation asserts that make those definitions meaningful."""
+    fi = prog.func(M, 'Element.__init__')
+    fn = fi.node
+    a = {text(n.targets[0]): text(n.value).replace(' ', '')
+         for n in fn.body if isinstance(n, ast.Assign)
+         and len(n.targets) == 1}
+    ok = (a.get('self.vertices') == '[edge.vertices[0]foredgeinedges]'
+          and a.get('self.time_interval') ==
+          '(self.vertices[0].t,self.vertices[2].t)'
+          and a.get('self.space_interval') ==
+          '(self.vertices[0].x,self.vertices[2].x)'
+          and a.get('self.h_t') in (
+              'abs(self.vertices[2].t-self.vertices[0].t)',
+              'self.vertices[2].t-self.vertices[0].t')
+          and a.get('self.h_x') in (
+              'abs(self.vertices[2].x-self.vertices[0].x)',
+              'self.vertices[2].x-self.vertices[0].x'))
+    report.check(ok, 'R-geometry', 'Element intervals', fi.where(),
+                 'an element takes its vertices from the tails of its four '
+                 'edges; time/space interval and sizes from the corners 0 '
+                 '(t0,x0) and 2 (t1,x1)',
+                 construct='Element.__init__: intervals and sizes')
+    asserts = {text(n.test).replace(' ', '') for n in fn.body
+               if isinstance(n, ast.Assert)}
+    need = {'self.vertices[0].t==self.vertices[1].t',
+            'self.vertices[1].x==self.vertices[2].x',
+            'self.vertices[2].t==self.vertices[3].t',
+            'self.vertices[3].x==self.vertices[0].x',
+            'self.vertices[0].t<self.vertices[2].t',
+            'self.vertices[0].x<self.vertices[1].x'}
+    report.check(need <= asserts, 'R-geometry', 'Element orientation',
+                 fi.where(),
+                 'the constructor asserts the corner order (t0,x0), (t0,x1), '
+                 '(t1,x1), (t1,x0) with t0 < t1, x0 < x1 (missing: %s)' %
+                 sorted(need - asserts),
+                 construct='Element.__init__: orientation asserts')
+    chain = any(isinstance(n, ast.For) and any(
+        text(m.test).replace(' ', '') ==
+        'edges[i-1].vertices[1]==edges[i].vertices[0]'
+        for m in n.body if isinstance(m, ast.Assert)) for n in fn.body)
+    own = any(isinstance(n, ast.For) and text(n.iter) == 'edges' and any(
+        text(m).replace(' ', '') == '%s.elem=self' % text(n.target)
+        for m in n.body) and any(
+            isinstance(m, ast.Assert) and text(m.test).replace(
+                ' ', '') == 'not%s.elem' % text(n.target) for m in n.body)
+        for n in fn.body)
+    report.check(chain and own, 'R-geometry', 'Element edge registration',
+                 fi.where(),
+                 'edges chain head to tail and each edge is claimed by '
+                 'exactly one element (asserted free before)',
+                 construct='Element.__init__: edge chain / ownership')
+    ea = prog.func(M, 'Element.edges_axis')
+    lv = {q: text([n for n in ast.walk(prog.func(M, 'Element.' + q).node)
+                   if isinstance(n, ast.Return)][0].value).replace(' ', '')
+          for q in ('level_time', 'level_space')}
+    report.check(lv == {'level_time': 'self.levels[0]',
+                        'level_space': 'self.levels[1]'}, 'R-geometry',
+                 'level properties', fi.where(),
+                 'level_time = levels[0], level_space = levels[1]',
+                 construct='Element: level properties')
